@@ -19,9 +19,9 @@ class World:
         self.reg = enc.Registry()
         self.engines = {}
         for i in range(2):
-            e = iteration.Engine(name=f"it{i}", functions={"vid": lambda x: x})
+            e = iteration.Engine(name=f"it{i}", functions={"vid": lambda x: x, "vid_it": lambda x: x})
             self.engines[("it", i)] = self.reg.add_engine(e, "it", i)
-        s = sql.Engine(name="sql0", functions={"vid": lambda x: x})
+        s = sql.Engine(name="sql0", functions={"vid": lambda x: x, "vid_sql": lambda x: x})
         self.engines[("sql", 0)] = self.reg.add_engine(s, "sql", 0)
         self.meta = sqlalchemy.MetaData()
         self.tables = {}     # leaf id -> (table, cols, rows)
